@@ -120,9 +120,11 @@ CONTRIB = {
         proof_modules=["UVerifProofs.Props.C04"],
         level="proof",
         level_text="Lean model of to_double/to_float/to_long_double (exact under the decidable guard fbits <= mantissa, scale in normal range) and of the "
-                   "integer casts (through double / long double, as the code does); every encoding of small configurations read back and round-tripped",
+                   "integer casts (to_integer<Int>: the integer part from the decoded fields, as the code does since the repair of D23; theorem for every "
+                   "configuration: truncation toward zero whenever it fits, signed types clamp); every encoding of small configurations read back and "
+                   "round-tripped, encodings at / one and two posit ulps around integers for the large ones",
         level_note="trusted: Lean kernel, hand-written model, IEEE hardware arithmetic on exact products of powers of two",
-        explanation="read-back of posits to float/double/long double/int types and round trip",
+        explanation="read-back of posits to float/double/long double and to short/unsigned short/int/unsigned/long long/unsigned long long, and round trip",
         assumptions=["hardware multiplication of exactly representable factors with exactly representable product is exact"],
     ),
     "C06": dict(
